@@ -175,6 +175,9 @@ func (n *UploadPackSession) receiveObjects(pr *packfile.PackfileReader) (stateFn
 		if err != nil {
 			return nil, fmt.Errorf("error requesting upload pack (state=receiveObjects): %w", err)
 		}
+		if pr == nil {
+			return nil, fmt.Errorf("error requesting upload pack (state=receiveObjects): the remote did not answer with a packfile")
+		}
 	}
 	defer pr.Close()
 	doneReceiving, err := n.receiver.Receive(pr, n.bar)
@@ -183,6 +186,10 @@ func (n *UploadPackSession) receiveObjects(pr *packfile.PackfileReader) (stateFn
 	}
 	if doneReceiving {
 		return nil, nil
+	}
+	if len(pr.Info.Objects) == 0 {
+		// asking again would get the same answer: don't poll a remote that has nothing more to give
+		return nil, fmt.Errorf("error receiving objects: the remote sent an empty packfile although commits are still missing")
 	}
 	return n.receiveObjects(nil)
 }
